@@ -293,7 +293,7 @@ def main(mod, argv=None):
     opts["seed"] = seed
     # a whole-check time limit: units that have not finished by then are inconclusive, what the others
     # found is still reported (a change that makes many units explode must not make the check run for hours)
-    opts["check_deadline"] = t0 + float(os.environ.get("SX_CHECK_BUDGET_S", opts.get("check_budget_s", 1200 if tier == "quick" else 5 * 3600)))
+    opts["check_deadline"] = t0 + float(os.environ.get("SX_CHECK_BUDGET_S", opts.get("check_budget_s", 1800 if tier == "quick" else 5 * 3600)))
     if tier == "thorough":
         opts.setdefault("path_limit_s", 60)
         opts.setdefault("cross_every", 400)  # sampled queries are re-decided by z3 4.8.12 and cvc5
